@@ -10,6 +10,9 @@ CLAIMED = {
  "C12": ("rapid property-based testing with a math/big reference oracle + exhaustive enumeration of widths 1-2 and string lengths 0..300",
          "Inverse laws and rejection rules of Integer/Date/String checked on ~475k generated cases per quick run (boundary-directed) plus the complete width-1/2 space; exploration, not proof: wider integers and dates are sampled at boundaries and uniformly.",
          "math/big and time.UnixMilli are trusted; the harness reads only exported API", "DESIGN.md 5/C12"),
+ "C13": ("rapid property-based testing against an own bit-level base32/base64 codec; exhaustive enumeration of all inputs <= 2 bytes and of every foreign byte value; native fuzzing of the decoders (thorough)",
+         "Encoders compared with an independent bit-level model on every byte string of length <= 2 and ~100k generated ones; decoders classified must-accept / must-reject / grey by the model on ~400k grammar-generated strings per quick run, limits of the Safe variants probed at limit-1/limit/limit+1. Exploration: longer strings are sampled.",
+         "The bit-level model in the harness is the reference; Go's encoding/base32|64 are NOT trusted (the check found two leniencies in encoding/base32 that the library inherited).", "DESIGN.md 5/C13"),
 }
 checks = []
 for pid in ids:
